@@ -111,7 +111,10 @@ def add_prelude(rng, case, ex):
         qs, _ = W.make_queries(r2, refs, len(qids), [("chimeric", 2), ("noisy", 2), ("planted", 1)], ids=qids)
         case["filesets"]["pre"] = {"refs": [W.strip(r) for r in refs], "queries": [W.strip(q) for q in qs],
                                    "r_layout": None, "q_layout": None}
-    ex["prelude"] = [{"fileset": "pre", "mode": rng.choice(W.MODES), "cpus": rng.choice([1, 2, 3]), "out_name": "pre.xmap",
+    abort = rng.random() < 0.35 and ex.get("cpus") is not None
+    ex["prelude"] = [{"fileset": "pre", "mode": rng.choice(W.MODES), "out_name": "pre.xmap",
+                      # an aborted earlier run with the same -c leaves its pool (and its workers' memory) behind
+                      "cpus": ex["cpus"] if abort else rng.choice([1, 2, 3]), "abort_at": rng.randint(0, 2) if abort else None,
                       "config": {"-sp": rng.choice([600, 1500]), "-su": rng.choice([-50, -600]), "-dp": rng.choice([0.1, 3.0]),
                                  "-d": rng.choice([800, 3000])}}]
 
